@@ -68,6 +68,10 @@ func (m *machine) check() {
 		if err != nil || !bytes.Equal(got, want) {
 			m.failf("lookup %q = %x, %v; want %x", p, got, err, want)
 		}
+		// the result belongs to the caller: overwriting it must not change what is stored
+		for i := range got {
+			got[i] ^= 0xff
+		}
 	}
 	// absent neighbours: every live key truncated by a byte, extended by a byte, and the empty path
 	probe := map[string]bool{"": true}
